@@ -120,3 +120,11 @@ Example C03_budget_demo :   (* 3 roots, root 0 postpones: 4 executions at time 0
   length (pending (loop_init 3 (Fin 0))) = 3 /\
   step_knows (Fin 0) (kexec_x unit demo_client 10 tt (loop_init 3 (Fin 0))) = 1.
 Proof. exact demo_budget. Qed.
+
+(** (A) the tie to /repo's current source: every function this property's models were transcribed from has, in the
+    tree this run is checking, the normalised source it had when the models were validated (hashes regenerated from
+    /repo into gen/Generated.v on every run; pins in gen/SourcePins.v).  A change to one of them invalidates the
+    transcription until it is re-validated. *)
+From UsimGen Require SourcePins Pin_C03.
+Theorem C03_modelled_source_unchanged : forallb SourcePins.pin_ok Pin_C03.pins = true.
+Proof. exact Pin_C03.src_unchanged. Qed.
